@@ -1,7 +1,7 @@
 // C33: side-chain withdrawals need the arbiter quorum and are single-use.
 //
 // (a) verdicts of WithdrawFromSideChain.SpecialContextCheck on a light node with a controlled
-// arbiter set (n = 4, 12): V2 signer-index lists (every list of length <= 4 over
+// arbiter set (n = 4, 12; 33 and 36 for the V2 signer indexes): V2 signer-index lists (every list of length <= 4 over
 // {0,1,n-1,n,255}, for n = 12 appended to 8 distinct existing signers) x heights around the
 // restriction height x eras x program-code variants x reference mixes; V0/V1 multi-signature
 // codes (m, n byte, key-list variants incl. foreign / reordered / duplicate keys, one or two
@@ -32,6 +32,12 @@ func jobList(r *evid.Run) []string {
 			jobs = append(jobs, fmt.Sprintf("v2|%d|%s", n, e.Name))
 		}
 		jobs = append(jobs, fmt.Sprintf("ms|%d", n))
+	}
+	// arbiter sets beyond 32 members (mainnet has 36): V2 signer-index handling only
+	for _, n := range []int{33, 36} {
+		for _, e := range []string{"council", "dpos-nodes"} {
+			jobs = append(jobs, fmt.Sprintf("v2|%d|%s", n, e))
+		}
 	}
 	jobs = append(jobs, "single")
 	return jobs
